@@ -1209,7 +1209,9 @@ def restart_since_rival_applied(w, i):
     if em is None:
         return False
     j_applied = None
-    for j in range(i - 1, -1, -1):
+    # the FIRST time the rival answered `commit` is when it was applied (and its snapshot taken); later re-deliveries of an
+    # applied commit answer `commit` again without doing anything (quiescence rounds) and say nothing about the snapshot's age
+    for j in range(0, i):
         tj = w.trace[j][0].split()
         if tj[0] == "deliver" and int(tj[1]) == c and w.trace[j][1].split()[0] == "commit":
             en = w.events.get(int(tj[2]))
